@@ -291,12 +291,16 @@ def u_clear_hooks(ctx):
     obs = []
     for name in ("clear", "_start", "_stop"):
         eng = ctx.engine(f"C18/UrwidImageScreen.{name}", "C18")
-        eng.default_replay = "C18.screen"
+        eng.default_replay = "C18.hooks"
         st = State()
         self_, log = screen_world(ctx, eng, st)
         base_call(eng, name, may_raise=False)
         CANV0, VIEWS0 = st.new("canvas", {}), st.new("viewset", {})
         st.H(self_)["_ti_screen_canv"], st.H(self_)["_ti_image_cviews"] = CANV0, VIEWS0
+        # the set of tracked views may be empty while images are on the terminal (an image widget that is itself the top widget is
+        # drawn but never tracked: only composite canvases are walked) - the hooks clear regardless
+        eng.methods[("viewset", "__bool__")] = lambda e, s, recv, a, k: [(z3.Bool("some_view_is_tracked"), s)]
+        eng.methods[("viewset", "__len__")] = lambda e, s, recv, a, k: [(z3.If(z3.Bool("some_view_is_tracked"), e.sym_int("n_views_pos"), 0), s)]
         st.env.update(self=self_, args=(), kwargs=st.new("dict", {"@items": {}}))
         outs = run_function(eng, ctx.fn(URW, f"UrwidImageScreen.{name}"), st)
         for kind, val, s in outs:
@@ -486,12 +490,18 @@ def u_ti_clear_tail(ctx):
     new = st.new("viewset", {"which": "new"})
     st.H(self_)["_ti_image_cviews"] = old
 
+    VF = lambda nm: z3.Function("disappeared_view_" + nm, z3.IntSort(), z3.IntSort())
+    eng.attrs[("canvas", "cols")] = lambda e, s, v: [(Fn(lambda e2, s2, a, k: [(v.f["cw"], s2)]), s)]
+    eng.attrs[("canvas", "rows")] = lambda e, s, v: [(Fn(lambda e2, s2, a, k: [(v.f["ch"], s2)]), s)]
+
     def elem(i, s_):
         i = to_z3(i)
         s_.ghost["Qterms"] = list(s_.ghost.get("Qterms", [])) + [WID(i)]
         widget = Rec("widget", {"wid": WID(i), "_ti_image": Rec("image", {"kitty": K(i)})})
-        canv = Rec("canvas", {"widget_info": (widget, "size", "focus")})
-        return (canv, "row", "col", "trim")
+        canv = Rec("canvas", {"widget_info": (widget, "size", "focus"), "cw": VF("canvas_cols")(i), "ch": VF("canvas_rows")(i)})
+        # (canvas, row, col, left trim, top trim, columns, rows): any geometry - a view that vanished was on the terminal whatever
+        # part of its canvas it showed (a view trimmed at the top shows real image lines)
+        return (canv, VF("row")(i), VF("col")(i), VF("trim_left")(i), VF("trim_top")(i), VF("cols")(i), VF("rows")(i))
     def other_elem(i, s_):
         i = to_z3(i)
         K2, W2 = z3.Function("other_is_kitty", z3.IntSort(), z3.BoolSort()), z3.Function("other_widget", z3.IntSort(), z3.IntSort())
